@@ -71,4 +71,8 @@ def jobs(pid, tier):
                 vrt('C02', [r'wake[12]_.*'], bound=3, workers=4, **R),
                 vrt('C02', [r'wake3_.*'], bound=2, workers=16, **R),
                 vrt('C07', [r'mx[23]_.*'], bound=3, workers=8, **R)]
+    if pid == 'C10':
+        return [seq('C10')]
+    if pid == 'C09':
+        return [seq('C09')]
     return []
